@@ -107,13 +107,21 @@ func (fr *Frame) knownPure(s *State, f *types.Func, recv *Val, args []*Val) ([]*
 		return res, true
 	case "encoding/json.Unmarshal":
 		// the pointee of the second argument is overwritten with an arbitrary well-typed value
+		// Decoding is a deterministic function of the input bytes: the decoded value is json_<T>(data), the
+		// error json_err_<T>(data). Slices inside the decoded value denote some existing backing array whose
+		// content is arbitrary (two decodings of the same bytes see the same content while the heap is unchanged).
 		if pt, ok := args[1].T.Underlying().(*types.Pointer); ok {
 			hn, hs := fr.eng.ptrHeap(pt.Elem())
-			nv := fr.freshVal(s, pt.Elem(), "json")
+			dec, errf := fr.eng.jsonFuncs(pt.Elem())
+			nv := &Val{T: pt.Elem(), S: fr.vc.define("json", fr.eng.sortOf(pt.Elem()), fmt.Sprintf("(%s %s)", dec, args[0].S))}
+			s.assume(fr.eng.typeFact(nv, s.next))
+			fr.nilCheck(s, args[1], 0)
 			s.setHeap(hn, hs, fmt.Sprintf("(store %s %s %s)", s.heap(hn, hs), args[1].S, nv.S))
-		} else {
-			fr.havocEverything(s)
+			ev := &Val{T: sig.Results().At(0).Type(), S: fr.vc.define("jsonerr", "Int", fmt.Sprintf("(%s %s)", errf, args[0].S))}
+			s.assume(fr.eng.typeFact(ev, s.next))
+			return []*Val{ev}, true
 		}
+		fr.havocEverything(s)
 		return fr.freshResults(s, sig.Results()), true
 	case "math/big.NewInt":
 		ref := s.alloc()
